@@ -60,6 +60,31 @@ Proof.
     cbn [named_unsafe_errorb] in Hr; try discriminate; leaves; try reflexivity; bools.
 Qed.
 
+(* the two error sets of the property text, spelled out *)
+Lemma safe_set e :
+  safe_errorb e = true <->
+  (e = EUnableToAllocStreamId \/ e = EDbError DbIsBootstrapping
+   \/ (exists required alive, e = EDbError (DbUnavailable required alive))
+   \/ (exists received required dp, e = EDbError (DbReadTimeout received required dp))).
+Proof.
+  split.
+  - destruct e as [ | | | | | | | db | | | | ]; try destruct db; cbn; try discriminate; intros _;
+      eauto 8.
+  - intros [-> | [-> | [[? [? ->]] | [? [? [? ->]]]]]]; reflexivity.
+Qed.
+
+Lemma named_unsafe_set e :
+  named_unsafe_errorb e = true <->
+  (e = EBrokenConnectionError \/ e = EDbError DbOverloaded \/ e = EDbError DbServerError
+   \/ e = EDbError DbTruncateError
+   \/ (exists received required wt, e = EDbError (DbWriteTimeout received required wt))).
+Proof.
+  split.
+  - destruct e as [ | | | | | | | db | | | | ]; try destruct db; cbn; try discriminate; intros _;
+      eauto 9.
+  - intros [-> | [-> | [-> | [-> | [? [? [? ->]]]]]]]; reflexivity.
+Qed.
+
 Lemma safe_named_disjoint e : safe_errorb e = true -> named_unsafe_errorb e = false.
 Proof. destruct e as [ | | | | | | | db | | | | ]; try destruct db; cbn; congruence. Qed.
 
